@@ -521,6 +521,32 @@ func (vc *FnVC) backEdge(from, head *ssa.BasicBlock) {
 		mod = li.mod.locals
 	}
 	vc.checkInvs(li, st, hyp, "inv-preserved", mod)
+	if vc.con != nil && len(vc.con.Steps[li.ord]) > 0 && li.entryS != nil {
+		save := vc.st
+		tmp := st.clone()
+		tmp.reach = hyp
+		tmp.assumes = nil
+		vc.st = tmp
+		for i, c := range vc.con.Steps[li.ord] {
+			env := vc.invEnv(tmp)
+			env.prev = li.entryS
+			var parts []string
+			_, err := vc.trySpec(func() string { parts = env.conjuncts(c.Expr, false); return "" })
+			if err != "" {
+				vc.stale = append(vc.stale, fmt.Sprintf("%s loop %d step %d: %s", vc.key, li.ord, i+1, err))
+				continue
+			}
+			vc.flushSide(env)
+			for j, t := range parts {
+				nm := fmt.Sprintf("loop%d:%s", li.ord, clauseName(c, i))
+				if len(parts) > 1 {
+					nm = fmt.Sprintf("%s.%d", nm, j+1)
+				}
+				vc.assert("loop-step", nm, t)
+			}
+		}
+		vc.st = save
+	}
 	if len(li.decr0) > 0 {
 		save := vc.st
 		tmp := st.clone()
